@@ -84,7 +84,8 @@ Lemma szcol' j : (j < n)%N -> size (nth [::] H' j) = n.
 Proof. by move=> jn; rewrite /H' /diag_sub /mapi (nth_mapi_from _ _ [::]) ?szH // size_mapi_from szcol. Qed.
 
 (* contract of the rotation kernel (discharged below for the standard branch) *)
-Hypothesis Hrot : forall x y : F, let '(r, c, s) := compute_rotation O cut x y in c * x - s * y = r /\ s * x + c * y = 0.
+Definition rot_contract := forall x y : F, let '(r, c, s) := compute_rotation O cut x y in c * x - s * y = r /\ s * x + c * y = 0.
+Hypothesis Hrot : rot_contract.
 
 Definition Inv (i : nat) (R : seq (seq F)) (rs : seq (F * F)) :=
   [/\ size R = n, size rs = i &
@@ -381,4 +382,250 @@ rewrite IH ?cols_ok_colrot //; last first.
   by rewrite sx; elim: k M {ok sx IH} => [|k IHk] [|a [|b M]] //=; rewrite -?IHk.
 by rewrite mv_colrot // size_QYp.
 Qed.
+
+(* ---- the RQ loop of matrix_QtHQ only touches the first i+2 rows of columns i, i+1: on an upper triangular R this is the
+   full column rotation, hence  rq_loop = R G_0 G_1 ...  *)
+Definition tri_from (n i : nat) (M : seq (seq F)) : Prop :=
+  [/\ size M = n, cols_ok n M & forall j r, (i <= j < n)%N -> (j < r < n)%N -> nth 0 (nth [::] M j) r = 0].
+
+Lemma zero_comb (c s : F) (a b : seq F) : size a = size b ->
+  (forall r, (r < size a)%N -> nth 0 a r = 0 /\ nth 0 b r = 0) ->
+  vaddr (vscal c a) (vscal (- s) b) = a /\ vaddr (vscal s a) (vscal c b) = b.
+Proof.
+elim: a b => [|x a IH] [|y b] //= [sab] z.
+have [x0 y0] := z 0%N (ltn0Sn _); rewrite /= in x0 y0.
+have [|e1 e2] := IH b sab; first by move=> r rs; exact: (z r.+1).
+split.
+- by rewrite -[in RHS]e1 x0 y0 /vaddr /vscal /= !mulr0 addr0.
+- by rewrite -[in RHS]e2 x0 y0 /vaddr /vscal /= !mulr0 addr0.
+Qed.
+
+Lemma rot_cols_rows_full k (c s : F) (a b : seq F) : size a = size b ->
+  (forall r, (k <= r < size a)%N -> nth 0 a r = 0 /\ nth 0 b r = 0) ->
+  rot_cols_rows O k c s a b = (vaddr (vscal c a) (vscal (- s) b), vaddr (vscal s a) (vscal c b)).
+Proof.
+elim: k a b => [|k IH] a b sab z.
+- have [|-> ->] := @zero_comb c s a b sab; first by move=> r rs; apply: z.
+  by case: a b {sab z} => [|x a] [|y b].
+- case: a b sab z => [|x a] [|y b] //= [sab] z.
+  rewrite IH //; last by move=> r rs; exact: (z r.+1).
+  by rewrite /vaddr /vscal /=; congr (_ :: _, _ :: _); ring.
+Qed.
+
+Lemma size_colrot i (c s : F) M : size (colrot i c s M) = size M.
+Proof. by elim: i M => [|i IH] [|a [|b M]] //=; rewrite IH. Qed.
+
+Lemma nth_colrot i (c s : F) M j : (i.+1 < size M)%N ->
+  nth [::] (colrot i c s M) j =
+  if j == i then vaddr (vscal c (nth [::] M i)) (vscal (- s) (nth [::] M i.+1))
+  else if j == i.+1 then vaddr (vscal s (nth [::] M i)) (vscal c (nth [::] M i.+1)) else nth [::] M j.
+Proof.
+elim: i M j => [|i IH] [|a [|b M]] [|j] //= h; try by case: j.
+all: by rewrite IH.
+Qed.
+
+Lemma nth_lin (u v : F) (x y : seq F) r : size x = size y -> (r < size x)%N ->
+  nth 0 (vaddr (vscal u x) (vscal v y)) r = u * nth 0 x r + v * nth 0 y r.
+Proof. by elim: x y r => [|a x IH] [|b y] [|r] //= [sxy] rs; rewrite /vaddr /vscal /= -/(vscal _ _) -/(vscal _ _) -/(vaddr _ _); exact: IH. Qed.
+
+Lemma rq_step n i (c s : F) M : (i.+1 < n)%N -> tri_from n i M ->
+  let a := nth [::] M i in let b := nth [::] M i.+1 in
+  let '(a2, b2) := rot_cols_rows O (i + 2) c s a b in
+  let M' := mapi_from 0 (fun j cj => if PeanoNat.Nat.eqb j i then a2 else if PeanoNat.Nat.eqb j i.+1 then b2 else cj) M in
+  M' = colrot i c s M /\ tri_from n i.+1 M'.
+Proof.
+move=> i1n [szM ok tri] a b.
+have sa : size a = n by move/allP: ok => /(_ a) /(_ (mem_nth _ _)) /eqP -> //; rewrite szM; lia.
+have sb : size b = n by move/allP: ok => /(_ b) /(_ (mem_nth _ _)) /eqP -> //; rewrite szM.
+have hz : forall r, (i + 2 <= r < size a)%N -> nth 0 a r = 0 /\ nth 0 b r = 0.
+  by move=> r /andP[r1 r2]; rewrite sa in r2; split; apply: tri; lia.
+rewrite (rot_cols_rows_full c s (etrans sa (esym sb)) hz).
+set a2 := vaddr _ _; set b2 := vaddr _ _.
+have e : mapi_from 0 (fun j cj => if PeanoNat.Nat.eqb j i then a2 else if PeanoNat.Nat.eqb j i.+1 then b2 else cj) M = colrot i c s M.
+  apply: (@eq_from_nth _ [::]); first by rewrite size_mapi_from size_colrot.
+  move=> j; rewrite size_mapi_from => jM.
+  by rewrite (@nth_mapi_from _ _ 0 _ M j [::] [::]) // add0n nth_colrot ?szM // !eqbE.
+rewrite /= e; split=> //; split; first by rewrite size_colrot.
+- exact: cols_ok_colrot.
+- move=> j r /andP[j1 j2] /andP[r1 r2]; rewrite nth_colrot ?szM //.
+  have -> : (j == i) = false by apply/eqP; lia.
+  case: eqP => [ej|_]; last by apply: tri; lia.
+  have ar : nth 0 a r = 0 by apply: tri; lia.
+  have br : nth 0 b r = 0 by apply: tri; lia.
+  by rewrite /b2 nth_lin ?sa ?sb // ar br !mulr0 addr0.
+Qed.
+
+Lemma rq_loop_colrots n rs i M : (i + size rs < n)%N -> tri_from n i M -> rq_loop O i rs M = colrots i rs M.
+Proof.
+elim: rs i M => [|[c s] rs IH] i M //= h tr.
+have i1n : (i.+1 < n)%N by lia.
+have := @rq_step n i c s M i1n tr.
+rewrite /= !nthE.
+case: (rot_cols_rows _ _ _ _ _ _) => a2 b2 /= [-> tr'].
+by apply: IH tr'; rewrite addSnnS.
+Qed.
 End Sim.
+
+(* ------------------------------------------------------------------ matrix_QtHQ = Q' H Q *)
+Section Final.
+Variable F : rcfType.
+Variable cut : F.
+Notation O := (OpsF F).
+
+(* the rotation kernel's contract (rotation_spec discharges it for the standard branch) *)
+Hypothesis Hrot3 : forall x y : F, let '(r, c, s) := compute_rotation O cut x y in
+  [/\ c * x - s * y = r, s * x + c * y = 0 & c ^+ 2 + s ^+ 2 = 1].
+
+Lemma hqr_loop_normalized n fuel i R acc : normalized acc ->
+  normalized (hqr_loop O cut n fuel i R acc).2.
+Proof.
+elim: fuel i R acc => [|fuel IH] i R acc /= na.
+- by rewrite revE /normalized all_rev.
+- rewrite /hqr_step.
+  have := Hrot3 (List.nth i (List.nth i R nil) 0) (List.nth i.+1 (List.nth i R nil) 0).
+  case: (compute_rotation _ _ _ _) => [[r c] s] [_ _ e3].
+  by apply: IH; rewrite /normalized /= e3 eqxx.
+Qed.
+
+(* linearity of Q' *)
+Lemma QtY_from_vaddr k rs (x y : seq F) : size x = size y ->
+  apply_QtY_from O k rs (vaddr x y) = vaddr (apply_QtY_from O k rs x) (apply_QtY_from O k rs y).
+Proof.
+elim: rs k x y => [|[c s] rs IH] k x y sxy //=.
+by rewrite rot_vaddr // IH // !size_rot_at.
+Qed.
+Lemma QtY_from_vscal k rs a (x : seq F) : apply_QtY_from O k rs (vscal a x) = vscal a (apply_QtY_from O k rs x).
+Proof. by elim: rs k x => [|[c s] rs IH] k x //=; rewrite rot_vscal IH. Qed.
+
+Lemma size_QtY_from k rs (x : seq F) : size (apply_QtY_from O k rs x) = size x.
+Proof. by elim: rs k x => [|[c s] rs IH] k x //=; rewrite IH size_rot_at. Qed.
+
+(* entries of a matrix-vector product *)
+Lemma nth_vaddr (x y : seq F) r : size x = size y -> (r < size x)%N -> nth 0 (vaddr x y) r = nth 0 x r + nth 0 y r.
+Proof. by elim: x y r => [|a x IH] [|b y] [|r] //= [sxy] rs; exact: IH. Qed.
+Lemma nth_vscal a (x : seq F) r : nth 0 (vscal a x) r = a * nth 0 x r.
+Proof. by elim: x r => [|b x IH] [|r] //=; rewrite ?mulr0. Qed.
+
+Lemma nth_mv n (M : seq (seq F)) x r : cols_ok n M -> size x = size M -> (r < n)%N ->
+  nth 0 (mv n M x) r = \sum_(0 <= j < size M) nth 0 x j * nth 0 (nth [::] M j) r.
+Proof.
+elim: M x => [|c M IH] [|a x] //= ok sx rn; first by rewrite big_nil nth_nseq rn.
+move: ok => /andP[/eqP sc ok]; case: sx => sx.
+rewrite nth_vaddr ?size_vscal ?size_mv ?sc // nth_vscal IH // big_nat_recl //=.
+Qed.
+
+Lemma sum_delta n (f : nat -> F) r : (r < n)%N -> \sum_(0 <= j < n) (if r == j then f j else 0) = f r.
+Proof.
+move=> rn; rewrite (@big_cat_nat _ _ _ r) //= ?leq0n //; last exact: ltnW.
+rewrite big_nat_cond big1 ?add0r; last by move=> j /andP[/andP[_ jr] _]; case: eqP => // e; rewrite e ltnn in jr.
+rewrite big_ltn // eqxx big_nat_cond big1 ?addr0 //.
+by move=> j /andP[/andP[rj _] _]; case: eqP => // e; rewrite e ltnn in rj.
+Qed.
+
+Lemma nth_diag_add s (M : seq (seq F)) j r : (j < size M)%N -> (r < size (nth [::] M j))%N ->
+  nth 0 (nth [::] (diag_add O s M) j) r = nth 0 (nth [::] M j) r + (if r == j then s else 0).
+Proof.
+move=> jM rc; rewrite /diag_add /mapi (@nth_mapi_from _ _ 0 _ M j [::] [::]) // add0n.
+rewrite (@nth_mapi_from _ _ 0 _ (nth [::] M j) r 0 0) // add0n eqbE /=.
+by case: eqP => _; rewrite ?addr0.
+Qed.
+Lemma nth_diag_sub s (M : seq (seq F)) j r : (j < size M)%N -> (r < size (nth [::] M j))%N ->
+  nth 0 (nth [::] (diag_sub O s M) j) r = nth 0 (nth [::] M j) r - (if r == j then s else 0).
+Proof.
+move=> jM rc; rewrite /diag_sub /mapi (@nth_mapi_from _ _ 0 _ M j [::] [::]) // add0n.
+rewrite (@nth_mapi_from _ _ 0 _ (nth [::] M j) r 0 0) // add0n eqbE /=.
+by case: eqP => _; rewrite ?subr0.
+Qed.
+Lemma size_diag_add s (M : seq (seq F)) : size (diag_add O s M) = size M.
+Proof. by rewrite /diag_add /mapi size_mapi_from. Qed.
+Lemma cols_ok_diag_add n s (M : seq (seq F)) : cols_ok n M -> cols_ok n (diag_add O s M).
+Proof.
+move=> ok; apply/(all_nthP [::]) => j; rewrite size_diag_add => jM.
+rewrite /diag_add /mapi (@nth_mapi_from _ _ 0 _ M j [::] [::]) // size_mapi_from.
+exact: (all_nthP [::] ok).
+Qed.
+
+Lemma mv_diag_add n s (M : seq (seq F)) x : size M = n -> cols_ok n M -> size x = n ->
+  mv n (diag_add O s M) x = vaddr (mv n M x) (vscal s x).
+Proof.
+move=> sM ok sx; apply: (@eq_from_nth _ 0).
+  by rewrite size_vaddr size_vscal !size_mv ?cols_ok_diag_add // sx minnn.
+move=> r; rewrite size_mv ?cols_ok_diag_add // => rn.
+rewrite nth_vaddr ?size_mv ?size_vscal ?sx // nth_vscal !nth_mv ?size_diag_add ?cols_ok_diag_add ?sM ?sx //.
+rewrite -(sum_delta (fun j => s * nth 0 x j) rn) -big_split /=.
+apply: eq_big_nat => j /andP[_ jn].
+rewrite nth_diag_add ?sM //; last by rewrite (eqP (all_nthP [::] ok j _)) ?sM.
+by rewrite mulrDr; case: (r == j); rewrite ?mulr0 // [X in _ + X = _]mulrC.
+Qed.
+
+Definition hess (n : nat) (M : seq (seq F)) : seq (seq F) := mkseq (fun j => zb j.+1 (nth [::] M j)) n.
+
+Lemma cols_ok_hess n (M : seq (seq F)) : (forall j, (j < n)%N -> size (nth [::] M j) = n) -> cols_ok n (hess n M).
+Proof. by move=> h; apply/(all_nthP [::]) => j; rewrite size_mkseq => jn; rewrite nth_mkseq // size_zb h. Qed.
+
+Lemma mv_hess_shift n sh (M : seq (seq F)) y : size M = n -> (forall j, (j < n)%N -> size (nth [::] M j) = n) -> size y = n ->
+  mv n (hess n (diag_sub O sh M)) y = vaddr (mv n (hess n M) y) (vscal (- sh) y).
+Proof.
+move=> sM sc sy.
+have sc' : forall j, (j < n)%N -> size (nth [::] (diag_sub O sh M) j) = n.
+  by move=> j jn; rewrite /diag_sub /mapi (@nth_mapi_from _ _ 0 _ M j [::] [::]) ?sM // size_mapi_from sc.
+apply: (@eq_from_nth _ 0).
+  by rewrite size_vaddr size_vscal !size_mv ?cols_ok_hess // sy minnn.
+move=> r; rewrite size_mv ?cols_ok_hess // => rn.
+rewrite nth_vaddr ?size_mv ?size_vscal ?sy ?cols_ok_hess // nth_vscal !nth_mv ?size_mkseq ?cols_ok_hess ?sy //.
+rewrite -(sum_delta (fun j => - sh * nth 0 y j) rn) -big_split /=.
+apply: eq_big_nat => j /andP[_ jn].
+rewrite !nth_mkseq ?sc ?sc' // nth_diag_sub ?sM ?sc //.
+case: (leqP r j.+1) => rj.
+- by rewrite mulrBr; case: (r == j); rewrite ?mulr0 ?subr0 ?addr0 // mulNr [sh * _]mulrC.
+- have -> : (r == j) = false by apply/eqP; lia.
+  by rewrite mulr0 addr0.
+Qed.
+
+Lemma size_colrots k rs (M : seq (seq F)) : size (colrots k rs M) = size M.
+Proof. by elim: rs k M => [|[c s] rs IH] k M //=; rewrite IH size_colrot. Qed.
+Lemma cols_ok_colrots n k rs (M : seq (seq F)) : cols_ok n M -> cols_ok n (colrots k rs M).
+Proof. by elim: rs k M => [|[c s] rs IH] k M //= ok; apply: IH; exact: cols_ok_colrot. Qed.
+
+Lemma vadd_cancel (a : F) (u x : seq F) : size u = size x ->
+  vaddr (vaddr u (vscal (- a) x)) (vscal a x) = u.
+Proof.
+elim: u x => [|p u IH] [|q x] //= [sux].
+rewrite /vaddr /vscal /= -/(vscal _ _) -/(vscal _ _) -/(vaddr _ _) -/(vaddr _ _) IH //.
+by congr (_ :: _); ring.
+Qed.
+
+(* matrix_QtHQ() = Q' H Q: for every n >= 1, every input (entries below the sub-diagonal ignored), every shift *)
+Theorem hqr_QtHQ_similar n (H : seq (seq F)) sh : (0 < n)%N -> size H = n -> (forall j, (j < n)%N -> size (nth [::] H j) = n) ->
+  let '(R, rs) := hqr_compute O cut n H sh in
+  forall x, size x = n -> mv n (hqr_QtHQ O R rs sh) x = apply_QtY O rs (mv n (hess n H) (apply_QY O rs x)).
+Proof.
+move=> n0 sH sc.
+have Hrot : rot_contract cut.
+  by move=> x y; have := Hrot3 x y; case: (compute_rotation _ _ _ _) => [[r c] s] [].
+have := @hqr_compute_spec F cut n H sh sH sc Hrot.
+have := @hqr_loop_normalized n (n - 1) 0 (diag_sub O sh H) [::] isT.
+rewrite /hqr_compute; case: (hqr_loop _ _ _ _ _ _ _) => R rs /= nrm [sR srs cols] x sx.
+set H' := diag_sub O sh H in cols.
+have sc' : forall j, (j < n)%N -> size (nth [::] H' j) = n.
+  by move=> j jn; rewrite /H' /diag_sub /mapi (@nth_mapi_from _ _ 0 _ H j [::] [::]) ?sH // size_mapi_from sc.
+have eR : R = [seq apply_QtY O rs c | c <- hess n H'].
+  apply: (@eq_from_nth _ [::]); first by rewrite size_map size_mkseq.
+  move=> j; rewrite sR => jn; rewrite (nth_map [::]) ?size_mkseq // nth_mkseq //.
+  by have [-> _] := cols j jn.
+have okR : cols_ok n R.
+  rewrite eR /cols_ok all_map; apply/(all_nthP [::]) => j; rewrite size_mkseq => jn /=.
+  by rewrite /apply_QtY size_QtY_from nth_mkseq // size_zb sc'.
+have tri : tri_from n 0 R.
+  split=> // j r /andP[_ jn] jr; have [_ z] := cols j jn; exact: z.
+rewrite /hqr_QtHQ (@rq_loop_colrots _ n) //; last by rewrite add0n srs; lia.
+rewrite mv_diag_add ?size_colrots ?cols_ok_colrots // mv_colrots ?sR // -apply_QY_QYp.
+set y := apply_QY O rs x.
+have sy : size y = n by rewrite /y apply_QY_QYp size_QYp.
+have -> : mv n R y = apply_QtY O rs (mv n (hess n H') y).
+  by rewrite /apply_QtY QtY_from_mv ?cols_ok_hess // eR.
+rewrite mv_hess_shift // /apply_QtY QtY_from_vaddr ?size_vscal ?size_mv ?cols_ok_hess // QtY_from_vscal.
+have -> : apply_QtY_from O 0 rs y = x by have := QtY_QY x nrm; rewrite /apply_QtY.
+by rewrite vadd_cancel // size_QtY_from size_mv ?cols_ok_hess.
+Qed.
+End Final.
